@@ -452,6 +452,20 @@ def named_sums(ctx):
     return list(S.NAMED_SUMS.values())[ctx.named_mark:]
 
 
+def force(ctx, value, depth=0):
+    """Evaluate the (lazy) bodies of a finite-sum value once at fresh indices, so that every sum the code
+    divides by inside them has been named before the contract looks for it."""
+    if isinstance(value, S.SumT) and depth < 4:
+        for (c, lo, hi, body) in value.terms:
+            force(ctx, body(ctx.fresh_int('force')), depth + 1)
+        force(ctx, value.rest, depth + 1)
+    elif isinstance(value, (tuple, list)):
+        for x in value:
+            force(ctx, x, depth)
+    elif isinstance(value, Arr) and depth < 2:
+        force(ctx, value.at(tuple(ctx.fresh_int('force') for _ in value.shape)), depth + 1)
+
+
 def find_named_sum(ctx, spec_sum, budget_ms=3000):
     """The symbol of the finite sum named on this path whose definition is provably `spec_sum`
     (Sigma-extensionality, checked in a scratch context), or None."""
